@@ -968,6 +968,14 @@ def bounded(payload):
         run({"ops": ops, "ctx": SMALL_CTX}, "exhaustive_programs")
         parts["reserved_up_front_programs"] = parts.get("reserved_up_front_programs", 0) + 1
 
+    # an if_ whose condition is a bare variable that the block itself overwrites (the decision is the value on entry)
+    for go0 in (1, 0):
+        for els in (None, [["assign", "n", ["+", "n", 100]]]):
+            ops = [["assign", "go", go0], ["if", "go", [["assign", "go", 0], ["assign", "n", ["+", "n", 1]]], els],
+                   ["assign", "<state>y", ["+", "n", "go"]]]
+            run({"ops": ops, "ctx": SMALL_CTX}, "exhaustive_programs")
+            parts["bare_variable_condition_programs"] = parts.get("bare_variable_condition_programs", 0) + 1
+
     # attribute lookups (z.real, z.imag) on a variable that is written before and after the read
     for pos in ("rhs", "sub", "guard", "bound", "arg"):
         lk = [".", "z", "real"]
